@@ -415,9 +415,10 @@ func (l *Lexer) skipComment() {
 func (l *Lexer) skipMultiLineComment() {
 	found := false
 	for !found {
-		// break at the end of our input.
+		// break at the end of our input, without reading past it, so that the
+		// end-of-file token is positioned at the end of the text.
 		if l.ch == rune(0) {
-			found = true
+			break
 		}
 		// otherwise keep going until we find "*/"
 		if l.ch == '*' && l.peekChar() == '/' {
